@@ -31,6 +31,9 @@ var errorHandledByDefinition = map[string]string{
 	"ro.ShareWithConfig":       "forwards the error to the connection subject (site 2); site 1 hands the destination to the subject",
 }
 
+// reemits: operators of errorHandledByDefinition that deliver the (last) error later themselves.
+var reemits = map[string]bool{"ro.RetryWithConfig": true, "ro.OnErrorResumeNextWith": true}
+
 // ERR-PROPAGATION
 func ruleErrPropagation() check.Rule {
 	return check.Rule{
@@ -51,6 +54,28 @@ func ruleErrPropagation() check.Rule {
 						c.Inc("sites_of_multi_source_operators", 1)
 					}
 					if why, ok := errorHandledByDefinition[sc.String()]; ok {
+						if reemits[sc.String()] {
+							// the error is kept and sent later: an Error notification to the destination must exist
+							// outside this site's error slot
+							found := false
+							kept := map[types.Object]bool{}
+							if sl := s.Observer.Slots[model.SlotError]; s.Observer.Kind == model.AVObserver && sl != nil && sl.Lit != nil {
+								for _, w := range writesIn(s.Pkg.TypesInfo, sl.Lit.Body) {
+									kept[w.Var] = true
+								}
+							}
+							for _, e := range sc.Emits {
+								if e.ToDest && e.Kind == model.EmitError && !(e.Ctx == s.Src && e.Slot == model.SlotError) && len(e.Args) > 0 {
+									if id, _ := rootIdent(e.Args[len(e.Args)-1]); id != nil && kept[objOf(e.Pkg.TypesInfo, id)] {
+										found = true
+									}
+								}
+							}
+							if !found {
+								c.Report(armed, key, s.Pos, "%s keeps the error of this source to send it later (%s), but no Error notification to the destination exists outside the error slot: the last error is never delivered", sc, why)
+								continue
+							}
+						}
 						if armed {
 							c.OK(key, s.Pos, "by definition: %s", why)
 						}
@@ -682,6 +707,15 @@ func ruleTerminalPropagation() check.Rule {
 						}
 						continue
 					}
+					awaited := s.Src != nil && s.Src.Awaited
+					if awaited && (s.InLoop || (s.Ctx != nil && s.Ctx.Kind == model.KSrc)) {
+						// an awaited attempt inside a loop, or an awaited inner observable inside the outer's next slot:
+						// when it completes the loop / the outer source goes on
+						if armed {
+							c.OK(key, s.Pos, "awaited inside a loop or inside the outer source's callback: the loop or the outer source goes on after the wait")
+						}
+						continue
+					}
 					// nodes that count as "goes on": terminal emissions, subscribe sites and calls of closures/helpers that contain one
 					onward := map[ast.Node]bool{}
 					mark := func(r *model.Rec, n ast.Node) {
@@ -716,6 +750,16 @@ func ruleTerminalPropagation() check.Rule {
 							if _, isSend := x.(*ast.SendStmt); isSend {
 								found = true // handed to a queue (ToChannel, ObserveOn)
 							}
+							if as, isAs := x.(*ast.AssignStmt); isAs && awaited {
+								// an awaited attempt tells the loop that follows the Wait what happened
+								for _, l := range as.Lhs {
+									if id, _ := rootIdent(l); id != nil {
+										if v, ok := objOf(s.Pkg.TypesInfo, id).(*types.Var); ok && !(slot.Lit.Pos() <= v.Pos() && v.Pos() <= slot.Lit.End()) {
+											found = true
+										}
+									}
+								}
+							}
 							if l, ok := x.(*ast.FuncLit); ok && ast.Node(l) != n {
 								return false
 							}
@@ -739,13 +783,30 @@ func ruleTerminalPropagation() check.Rule {
 						})
 						return found
 					}
-					if s.Src != nil && s.Src.Awaited {
-						if armed {
-							c.OK(key, s.Pos, "the subscription is awaited: the operator goes on after Wait returns")
+					usedState := false
+					readsStateRec := func(cond ast.Node) bool {
+						if readsState(cond) {
+							usedState = true
+							return true
 						}
-						continue
+						return false
 					}
-					if everyPathPassesState(slot.Lit.Body, isOnward, readsState) {
+					passes := everyPathPassesState(slot.Lit.Body, isOnward, readsStateRec)
+					if passes && usedState && !everyPathPasses(slot.Lit.Body, isOnward) {
+						// a path relies on "the output is ended elsewhere": a Complete to the destination must exist in
+						// another function of the operator
+						elsewhere := false
+						for _, e := range sc.Emits {
+							if e.ToDest && e.Kind != model.EmitNext && innermostFunc(m, e.Pkg, e.Node) != ast.Node(slot.Lit) {
+								elsewhere = true
+							}
+						}
+						if !elsewhere {
+							c.Report(armed, key, slot.Lit.Pos(), "a path of this complete slot leaves the completion of the output to another callback, but no other callback of the operator sends a terminal notification: the output never ends")
+							continue
+						}
+					}
+					if passes {
 						if armed {
 							c.OK(key, s.Pos, "every path of the complete slot sends a terminal onwards, may do so through a closure, or subscribes another source")
 						}
